@@ -11,7 +11,7 @@ theorem tie_retryHandle (resp : Option Resp) (err : Option HErr) :
     Generated.Adapters.retryHandleGen resp err = retryHandle resp err := by
   cases err with
   | some e =>
-    obtain ⟨us, u, c, r, ua, cn⟩ := e
+    obtain ⟨us, u, c, r, ua, cn, dl⟩ := e
     cases us <;> cases u <;> cases c <;> cases r <;> cases ua <;>
       simp [Generated.Adapters.retryHandleGen, retryHandle, retryableError, errOf]
   | none =>
